@@ -2071,6 +2071,7 @@ Slices:
 // place and wants to suppress errors that might result from that decision.
 func (p *parser) setRecovery() {
 	p.recovery = true
+	verifHook("parser.recovery", p.peeker, nil, "setRecovery")
 }
 
 // recover seeks forward in the token stream until it finds TokenType "end",
@@ -2084,6 +2085,7 @@ func (p *parser) setRecovery() {
 func (p *parser) recover(end TokenType) Token {
 	start := p.oppositeBracket(end)
 	p.recovery = true
+	verifHook("parser.recovery", p.peeker, nil, "recover")
 
 	nest := 0
 	for {
@@ -2140,6 +2142,7 @@ Token:
 
 func (p *parser) recoverAfterBodyItem() {
 	p.recovery = true
+	verifHook("parser.recovery", p.peeker, nil, "recoverAfterBodyItem")
 	var open []TokenType
 
 Token:
